@@ -92,16 +92,23 @@ type recAgg struct {
 	mu   *sync.Mutex
 	got  *[][]fakes.Series
 	real statsd.Aggregator
+	hold *chan struct{} // shared by the workers of one handler: non-nil while they are held inside ReceiveMap
 }
 
 func (a *recAgg) ReceiveMap(mm *gostatsd.MetricMap) {
 	a.mu.Lock()
+	g := *a.hold
+	a.mu.Unlock()
+	if g != nil {
+		<-g
+	}
+	a.mu.Lock()
 	(*a.got)[a.id] = append((*a.got)[a.id], fakes.Flatten(mm)...)
 	a.mu.Unlock()
 }
-func (a *recAgg) Flush(time.Duration)       {}
+func (a *recAgg) Flush(time.Duration)        {}
 func (a *recAgg) Process(statsd.ProcessFunc) {}
-func (a *recAgg) Reset()                    {}
+func (a *recAgg) Reset()                     {}
 
 func TestCases(t *testing.T) {
 	path := os.Getenv("VERIF_CASES")
@@ -140,6 +147,7 @@ func TestCases(t *testing.T) {
 		tw.Emit(map[string]any{"ev": "split", "n": n, "keys": keys, "shards": out, "same": same})
 	}
 	synctest.Test(t, func(t *testing.T) {
+		holds := map[int]*chan struct{}{}
 		handlers := map[int]*statsd.BackendHandler{}
 		gots := map[int]*[][]fakes.Series{}
 		var mu sync.Mutex
@@ -151,8 +159,10 @@ func TestCases(t *testing.T) {
 			}
 			got := make([][]fakes.Series, n)
 			id := 0
+			hold := new(chan struct{})
+			holds[n] = hold
 			h := statsd.NewBackendHandler(nil, 1, n, n%3, statsd.AggregatorFactoryFunc(func() statsd.Aggregator {
-				a := &recAgg{id: id, mu: &mu, got: &got}
+				a := &recAgg{id: id, mu: &mu, got: &got, hold: hold}
 				id++
 				return a
 			}))
@@ -217,6 +227,68 @@ func TestCases(t *testing.T) {
 			}
 			mu.Unlock()
 			res.Eval(len(batch) >= 2)
+			// (4) a dispatch given up half way (its context ends while the workers are busy) must leave nothing behind: the next batch is
+			//     delivered as if the abandoned one had never been
+			if n >= 2 && rng.Intn(4) == 0 {
+				mu.Lock()
+				g := make(chan struct{})
+				*holds[n] = g
+				mu.Unlock()
+				cctx, ccancel := context.WithCancel(ctx)
+				lost := gostatsd.NewMetricMap(false)
+				for k := 0; k < 40; k++ { // enough series to reach every shard; they are not part of any later batch
+					lost.Receive(&gostatsd.Metric{Name: fmt.Sprintf("abandoned.%d", k), Type: gostatsd.COUNTER, Value: 1, Rate: 1, Tags: gostatsd.Tags{"k:v"}, Source: "10.9.9.9"})
+				}
+				done := make(chan struct{})
+				go func() { h.DispatchMetricMap(cctx, lost); close(done) }()
+				synctest.Wait()
+				done2 := make(chan struct{})
+				go func() { h.DispatchMetricMap(cctx, lost.Split(1)[0]); close(done2) }() // a second one queues behind the held workers
+				synctest.Wait()
+				ccancel()
+				synctest.Wait()
+				<-done2
+				mu.Lock()
+				close(g)
+				*holds[n] = nil
+				mu.Unlock()
+				<-done
+				synctest.Wait()
+				mu.Lock()
+				for i := range *got {
+					(*got)[i] = nil
+				}
+				mu.Unlock()
+				h.DispatchMetricMap(ctx, mm)
+				synctest.Wait()
+				mu.Lock()
+				emit(n, mm, before, *got)
+				for i := range *got {
+					(*got)[i] = nil
+				}
+				mu.Unlock()
+				res.Hit("dispatch-after-abandoned-dispatch")
+			}
+		}
+		// (5) one name carrying many series: every split of the same batch files each series in the same shard
+		for _, n := range []int{2, 3, 16} {
+			wide := gostatsd.NewMetricMap(false)
+			for k := 0; k < 300; k++ {
+				wide.Receive(&gostatsd.Metric{Name: "wide", Type: gostatsd.COUNTER, Value: 1, Rate: 1, Tags: gostatsd.Tags{fmt.Sprintf("i:%d", k)}, Source: gostatsd.Source(fmt.Sprintf("10.1.%d.%d", k/200, k%200))})
+				if k%3 == 0 {
+					wide.Receive(&gostatsd.Metric{Name: "wide", Type: gostatsd.TIMER, Value: float64(k), Rate: 1, Tags: gostatsd.Tags{fmt.Sprintf("i:%d", k)}, Source: "10.1.0.1"})
+				}
+			}
+			before := fakes.Render(wide)
+			for rep := 0; rep < 3; rep++ {
+				parts := wide.Split(n)
+				shards := make([][]fakes.Series, len(parts))
+				for i, p := range parts {
+					shards[i] = fakes.Flatten(p)
+				}
+				emit(n, wide, before, shards)
+			}
+			res.Hit("wide-name")
 		}
 		err := vh.ReadCases(path, func(idx int, raw []byte) error {
 			var c scase
